@@ -452,6 +452,7 @@ pub fn run(tier: Tier) -> i32 {
                                 current = None;
                                 next = i + 1;
                                 total.fetch_add(1, Ordering::Relaxed);
+                                rep.outcome(fnv(r.as_bytes()));
                                 let mut g = outcomes.lock().unwrap();
                                 let e = g.entry(format!("{}", r)).or_insert((0, String::new()));
                                 e.0 += 1;
